@@ -39,6 +39,7 @@ from .._keyed_lock import KeyedLock
 from .._store.abstract_workflow_store import (
     AbstractWorkflowStore,
     HandlerQuery,
+    is_terminal_status,
 )
 from .persistence_runtime import TickPersistenceDecorator
 
@@ -212,6 +213,10 @@ class IdleReleaseDecorator(BaseRuntimeDecorator):
                 f"Expected 1 handler for run {run_id}, got {len(handlers)}"
             )
         handler = handlers[0]
+        if is_terminal_status(handler.status):
+            # the run has ended: reloading it would replay its ticks, start it
+            # again and overwrite the stored outcome
+            return
         workflow = self._persistence.get_tracked_workflow(handler.workflow_name)
         if workflow is None:
             raise ValueError(f"Workflow {handler.workflow_name} not found")
